@@ -88,6 +88,7 @@ KindOK(full, mode, arr, n, live(_), L(_)) ==
 EntityIterOK(P, S) ==
   LET L == SortedSeq(S) IN
   /\ P.w = L /\ P.rf = L /\ P.bk = Rev(L) /\ P.v0 = (L # <<>>)
+  /\ P.bk2 = (IF L = <<>> THEN <<>> ELSE Rev(SubSeq(L, 1, Len(L) - 1)))
 
 (* --------------------------- the comparison ---------------------------- *)
 Up(s, q, full) ==
